@@ -15,9 +15,9 @@ import (
 // C03's persistence harnesses; this one pins the length checks around the
 // tail of a record, where a torn last record of allDeviceStats.dat ends.)
 func verifH_C15_stats_record_lengths() {
-	b := verifBytes("b", 80)
-	if len(b) >= 4 {
-		verifAssume(b[0] == 0 && b[1] == 0 && b[2] == 0 && b[3] == 0)
+	b := verifBytesN("b", verifCase("length", 0, 80)) // every length, arbitrary content
+	for i := 0; i < 4 && i < len(b); i++ {
+		b[i] = 0 // device count 0 (written, not assumed: the decoder's loops then have concrete bounds)
 	}
 	ads, n, err := DeserializeStreamAllDeviceStats(b)
 	if len(b) < 72 {
